@@ -200,7 +200,6 @@ func gen(r *Rand, traceLog bool) History {
 	return h
 }
 
-
 // segSteps: the number of atomic model steps of the code segment that follows wake-up number k of a run
 // (start: ensure + one test-and-mark per validator; submission returned: its result, then housekeeping).
 func segSteps(r Run, k int) int {
@@ -280,6 +279,9 @@ func genTied(r *Rand) YHistory {
 		lat := func() uint64 { return uint64(K * r.Range(1, 12)) }
 		lead := Run{Duty: genDuty(r, h.SPE, base, pool)}
 		lead.Script = mostlyValid(r, h.SPE, lead.Duty, pool)
+		if failing(h.SPE, lead) {
+			lead.Script = mostlyValid(r, h.SPE, lead.Duty, pool)
+		}
 		lead.Timing = Timing{Start: uint64(K * r.Range(0, 30)), Fetch: lat(), Accounts: lat(), Sign: lat(), Submit: lat()}
 		h.Runs = append(h.Runs, lead)
 		wakes := WakeInstants(lead)
@@ -287,9 +289,26 @@ func genTied(r *Rand) YHistory {
 		if r.Chance(1, 4) {
 			members = 3
 		}
+		// mode 0: the calls start together; mode 1: the others start when the lead's submission returns
+		// (its housekeeping), mostly as the first call of the next epoch; mode 2: at another wake-up
+		mode := 0
+		switch c := r.Intn(20); {
+		case c >= 18:
+			mode = 2
+		case c >= 12:
+			mode = 1
+		}
+		if mode == 1 && base < 2 && r.Chance(3, 4) {
+			continue // the housekeeping does nothing before epoch 2
+		}
+		if mode == 1 && failing(h.SPE, lead) && r.Chance(3, 4) {
+			continue // ... and is reached only by a call that succeeds
+		}
 		for k := 1; k < members; k++ {
 			var run Run
 			switch c := r.Intn(20); {
+			case mode == 1 && c < 15:
+				run.Duty = genDuty(r, h.SPE, base+1, pool)
 			case c < 10:
 				run.Duty = lead.Duty
 			case c < 17:
@@ -299,8 +318,11 @@ func genTied(r *Rand) YHistory {
 			}
 			run.Script = mostlyValid(r, h.SPE, run.Duty, pool)
 			stage := 0
-			if r.Chance(3, 10) {
-				stage = r.Range(1, 4)
+			switch mode {
+			case 1:
+				stage = 4
+			case 2:
+				stage = r.Range(1, 3)
 			}
 			run.Timing = Timing{Start: wakes[stage], Fetch: lat() + uint64(k), Accounts: lat(), Sign: lat(), Submit: lat()}
 			h.Runs = append(h.Runs, run)
@@ -313,15 +335,33 @@ func genTied(r *Rand) YHistory {
 				run.Duty = genDuty(r, h.SPE, base+uint64(r.Intn(2)), pool)
 			}
 			run.Script = mostlyValid(r, h.SPE, run.Duty, pool)
-			run.Timing = Timing{Start: uint64(K*r.Intn(60) + i), Fetch: lat(), Accounts: lat(), Sign: lat(), Submit: lat()}
+			start := r.Intn(60)
+			if r.Chance(1, 2) {
+				start += 200 // after everything else: a re-delivery that finds what the tied calls left behind
+			}
+			run.Timing = Timing{Start: uint64(K*start + i), Fetch: lat(), Accounts: lat(), Sign: lat(), Submit: lat()}
 			h.Runs = append(h.Runs, run)
 		}
 		if interleavings(h) > 300 {
 			continue
 		}
-		turns := make([]int, r.Range(0, 14))
-		for i := range turns {
-			turns[i] = r.Intn(3)
+		// turns: random, or ONE preemption: a call runs up to its j-th switch point, then another call runs
+		// for as long as it can (the schedule shape that exposes a window between two critical sections)
+		var turns []int
+		if r.Chance(2, 5) {
+			turns = make([]int, r.Range(0, 14))
+			for i := range turns {
+				turns[i] = r.Intn(members)
+			}
+		} else {
+			x := r.Intn(members)
+			y := (x + 1 + r.Intn(members-1)) % members
+			for j := r.Intn(5); j >= 0; j-- {
+				turns = append(turns, x)
+			}
+			for j := 0; j < 10; j++ {
+				turns = append(turns, y)
+			}
 		}
 		return YHistory{History: h, Gated: true, Turns: turns}
 	}
@@ -458,9 +498,9 @@ func TestC01(t *testing.T) {
 	for i := 0; i < n; i++ {
 		hs = append(hs, YHistory{History: gen(rng.Fork(), thorough && i%2 == 1)})
 	}
-	// gated histories: calls that arrive together and are interleaved inside the code (a quarter on top)
+	// gated histories: calls that arrive together and are interleaved inside the code (a third on top)
 	tiedRng := NewRand(Seed() ^ 0x7469656463616c6c)
-	for i := 0; i < n/4; i++ {
+	for i := 0; i < n/3; i++ {
 		hs = append(hs, genTied(tiedRng.Fork()))
 	}
 	for k, yh := range hs {
